@@ -12,6 +12,10 @@ package v2
 //@   trusted
 //@   benign
 //@   ensures isNilIface(result.1) ==> !isNilIface(result.0)
+//@ func (dag.State).FindBetweenLC
+//@   trusted
+//@   benign
+//@   ensures forall k int :: 0 <= k && k < len(result.0) ==> !isNilIface(result.0[k])
 //@ func (grpc.Connection).Send
 //@   trusted
 //@   benign
@@ -81,3 +85,21 @@ package v2
 //@   safety
 //@   requires forall k int :: 0 <= k && k < len(txs) ==> !isNilIface(txs[k])
 //@   call (dag.State).ReadPayload #1 requires [payload-read-only-for-public-transactions] len(transaction.PAL()) == 0 && same(arg(2), transaction.PayloadHash())
+
+// ---- C15: every transaction list that leaves the node was built by collectTransactionList ----
+// (the one place where payloads are attached, proved above to attach them for public transactions only)
+
+//@ func (messageSender).sendTransactionList
+//@   trusted
+//@   benign
+
+//@ func (*protocol).handleTransactionRangeQuery
+//@   prop C15 C19
+//@   call (messageSender).sendTransactionList #1 requires [list-built-by-the-payload-filtering-collector]
+//@        isNilIface(ret(call (*protocol).collectTransactionList #1).1) && arg(3) == ret(call (*protocol).collectTransactionList #1).0 && arg(1) == connection
+
+//@ func (*protocol).handleTransactionListQuery
+//@   prop C15 C19
+//@   loop 1 invariant true
+//@   call (messageSender).sendTransactionList #1 requires [list-built-by-the-payload-filtering-collector]
+//@        isNilIface(ret(call (*protocol).collectTransactionList #1).1) && arg(3) == ret(call (*protocol).collectTransactionList #1).0 && arg(1) == connection
